@@ -125,8 +125,9 @@ func namedResult(fd *ast.FuncDecl) string {
 }
 
 // c13cmp: the magnitude comparison of two normalised numbers.
-func c13cmp(c *core.Ctx) {
-	const R = "C13.cmp"
+func c13cmp(c *core.Ctx) { c13cmpAs(c, "C13.cmp") }
+
+func c13cmpAs(c *core.Ctx, R string) {
 	c.Rule(R, "cmpAbs/cmpInt/cmpFra compare magnitudes correctly given normalised operands (C13.norm: no leading zeros in the integer part, no trailing zeros in the fraction, digits only - C13.grammar): int() and fra() split nat at the same point Len()-exp (prefix / suffix); cmpInt answers by the lengths of the integer parts when they differ (or both are empty) and otherwise by the first differing byte from the left; cmpFra pads the shorter fraction with zeros and answers by the first differing digit; cmpAbs = cmpInt unless 0, then cmpFra. Each function is tabulated by operand role (n / nn) over every ordering of the lengths, every loop index and every pair of digit bytes; the lengths and bytes are touched only through comparisons and the digit offset, so the tables are complete, not samples")
 	c.Floor(R, 9)
 
